@@ -1664,6 +1664,19 @@ func replayC17(c *core.Ctx, raw json.RawMessage) {
 		_ = os.WriteFile(filepath.Join(c.OutDir, "digest_reply.json"), b, 0o644)
 		return
 	}
+	var dump struct {
+		Dump *scenario `json:"dump_request"`
+	}
+	if json.Unmarshal(raw, &dump) == nil && dump.Dump != nil {
+		// debugging aid: writes the reference file and the scenario's file
+		if f, ok := build(dump.Dump.Spec); ok {
+			_ = os.WriteFile(filepath.Join(c.OutDir, "dump_reference.parquet"), produceFresh(f).bytes, 0o644)
+			if dump.Dump.Mode == "reset" {
+				_ = os.WriteFile(filepath.Join(c.OutDir, "dump_scenario.parquet"), produceReused(f, dump.Dump.Lives).bytes, 0o644)
+			}
+		}
+		return
+	}
 	var bv struct {
 		Spec     *spec    `json:"spec"`
 		Variants []string `json:"variants"`
